@@ -1,8 +1,80 @@
 import TRV.Oracle.Util
-/-! Oracle operations: Drivers (stub, filled in by the module that owns it). -/
+import TRV.Model.Drivers
+/-! Oracle operations for the four driver models: one line = configuration + a sequence of
+    `s:<ttl>:<now>[:<rnd>]` (SendProbe) and `r:<packet hex>` (ReceiveProbe on that packet) steps;
+    the answer has one token per step. -/
 namespace TRV.Oracle.Drivers
-open TRV.Oracle
+open TRV TRV.Oracle TRV.Drv
 
-def handlers : List (String × Handler) := []
+inductive Op where
+  | send (ttl now rnd : Nat)
+  | recv (pkt : Bytes)
+
+def parseOp (s : String) : Option Op :=
+  match splitOn s ':' with
+  | ["s", t, n] => do pure (.send (← t.toNat?) (← n.toNat?) 0)
+  | ["s", t, n, r] => do pure (.send (← t.toNat?) (← n.toNat?) (← r.toNat?))
+  | ["r", p] => (parseHex p).map .recv
+  | _ => none
+
+def showOut : Out → String
+  | .accept t ip d tm => s!"acc:{t}:{toHex ip}:{showBool d}:{tm}"
+  | .retry => "retry"
+  | .notSupported => "nosup"
+  | .fatal => "fatal"
+
+/-- generic step loop over a driver state -/
+def runOps {σ : Type} (send : σ → Nat → Nat → Nat → SendRes σ) (recv : σ → Bytes → Out)
+    (st : σ) (ops : List Op) : List String :=
+  match ops with
+  | [] => []
+  | .send t n r :: rest =>
+    match send st t n r with
+    | .ok st' pkt => s!"w:{toHex pkt}" :: runOps send recv st' rest
+    | .err => "serr" :: runOps send recv st rest
+  | .recv p :: rest => showOut (recv st p) :: runOps send recv st rest
+
+def icmp : Handler
+  | l :: t :: e :: mn :: mx :: ops => orBad do
+    let cfg : IcmpCfg := { localA := ← parseHex l, target := ← parseHex t, echoId := ← e.toNat?,
+                           min := ← mn.toNat?, max := ← mx.toNat? }
+    let ops ← ops.mapM parseOp
+    pure (" ".intercalate (runOps (fun s t n _ => icmpSend s t n) icmpRecv { cfg, sent := [] } ops))
+  | _ => badOp
+
+def udp : Handler
+  | l :: lp :: t :: tp :: lo :: ops => orBad do
+    let cfg : UdpCfg := { localA := ← parseHex l, lport := ← lp.toNat?, target := ← parseHex t,
+                          tport := ← tp.toNat?, loosen := ← parseBool lo }
+    let ops ← ops.mapM parseOp
+    pure (" ".intercalate (runOps (fun s t n _ => udpSend s t n) udpRecv { cfg, sent := [] } ops))
+  | _ => badOp
+
+def tcp : Handler
+  | l :: lp :: t :: tp :: lo :: pa :: base :: sq :: ops => orBad do
+    let cfg : TcpCfg := { localA := ← parseHex l, lport := ← lp.toNat?, target := ← parseHex t,
+                          tport := ← tp.toNat?, loosen := ← parseBool lo, paris := ← parseBool pa,
+                          baseId := ← base.toNat?, seq := ← sq.toNat? }
+    let ops ← ops.mapM parseOp
+    pure (" ".intercalate (runOps tcpSend tcpRecv { cfg, sent := [] } ops))
+  | _ => badOp
+
+def parseTs (s : String) : Option (Option (Nat × Nat)) :=
+  if s = "-" then some none else
+  match splitOn s ':' with
+  | [a, b] => do pure (some ((← a.toNat?), (← b.toNat?)))
+  | _ => none
+
+def sack : Handler
+  | l :: lp :: t :: tp :: lo :: mn :: mx :: isn :: iack :: ts :: ops => orBad do
+    let cfg : SackCfg := { localA := ← parseHex l, lport := ← lp.toNat?, target := ← parseHex t,
+                           tport := ← tp.toNat?, loosen := ← parseBool lo, min := ← mn.toNat?,
+                           max := ← mx.toNat?, isn := ← isn.toNat?, iack := ← iack.toNat?, ts := ← parseTs ts }
+    let ops ← ops.mapM parseOp
+    pure (" ".intercalate (runOps (fun s t n _ => sackSend s t n) sackRecv { cfg, sent := [] } ops))
+  | _ => badOp
+
+def handlers : List (String × Handler) :=
+  [("drv.icmp", icmp), ("drv.udp", udp), ("drv.tcp", tcp), ("drv.sack", sack)]
 
 end TRV.Oracle.Drivers
